@@ -117,41 +117,12 @@ theorem ginv_hexAddCell {k : Kernel} {hfs : List Nat} (chk : Bool) (hok : Global
   cases hr : (k.hexAddCell hfs chk).2 with
   | none => rw [hexAddCell_reject_unchanged k hfs chk hr]; exact hi
   | some c =>
-    obtain ⟨_, _, l, _, _, hv, hcase⟩ := hexAddCell_accept k hfs chk c hr
+    obtain ⟨_, _, _, _, _, hv, _⟩ := hexAddCell_accept k hfs chk c hr
+    obtain ⟨l, heq, hcase, _⟩ := hexAddCell_eq_addCell k hfs chk c hr
     have hne : hfs ≠ [] := by intro e; subst e; unfold hexAddCell at hr; simp at hr
-    rcases hcase with ⟨hc, _⟩ | ⟨hc, _, hco⟩ | ⟨hc, hco, hre⟩
-    · subst hc
-      have : k.hexAddCell hfs false = k.addCell hfs false := by
-        unfold hexAddCell at hr ⊢
-        split at hr
-        · simp at hr
-        · split at hr
-          · simp at hr
-          · split at hr
-            · simp at hr
-            · rename_i h1 h2 h3; simp only [h1, h2, h3]; rfl
-      rw [this]; exact ginv_addCell false hok.1 hok.2 hi
-    · subst hc
-      have : k.hexAddCell hfs true = k.addCell hfs true := by
-        unfold hexAddCell at hr ⊢
-        split at hr
-        · simp at hr
-        · split at hr
-          · simp at hr
-          · split at hr
-            · simp at hr
-            · rename_i h1 h2 h3; simp only [h1, h2, h3, hco]; rfl
-      rw [this]; exact ginv_addCell true hok.1 hok.2 hi
-    · subst hc
-      have heq : k.hexAddCell hfs true = k.addCell l true := by
-        unfold hexAddCell at hr ⊢
-        split at hr
-        · simp at hr
-        · split at hr
-          · simp at hr
-          · split at hr
-            · simp at hr
-            · rename_i h1 h2 h3; simp only [h1, h2, h3, hco, hre]; rfl
+    rcases hcase with ⟨e, _⟩ | ⟨hct, _, hre⟩
+    · subst e; rw [heq]; exact ginv_addCell chk hok.1 hok.2 hi
+    · subst hct
       have hfirst : hfs.getD 0 0 ∈ hfs := by
         cases hfs with
         | nil => exact absurd rfl hne
